@@ -67,6 +67,29 @@ def run(rep, tier, seed, replay=None):
                 nviol += 1
         if nviol > 10:
             break
+    # second construction path: zero delayed replication counts left at their default (not set, not re-expanded)
+    zc = [(c, l) for c, l in zip(cases, clines) if "zero_count" in codecrun.features(c)]
+    if zc and not rep.violations:
+        lo = ctx.run_c(["LAZY 1"] + [l for _, l in zc])[1:]
+        ctx.run_c(["LAZY 0"])
+        base = dict(zip(clines, couts))
+        for (c, l), o in zip(zc, lo):
+            rep.count(("lazy", l))
+            feat["lazy_zero_count"] += 1
+            h1, s1 = codec.parse_c_listing(o)
+            h0, s0 = codec.parse_c_listing(base[l])
+            fail = None
+            if h1.get("rc") != "0":
+                fail = "building the dataset without setting the zero replication counts failed (rc=%s)" % h1.get("rc")
+            else:
+                fail = codecrun.check_listing_against_intent(c, s1)
+                if not fail and h1.get("msg") != h0.get("msg"):
+                    fail = "the message differs from the one built by setting the zero counts explicitly"
+            if fail:
+                rep.violation("C01: %s  [zero counts left at default; case: %s]" % (fail, l[:300]), {"kind": "codec", "case": l, "case_obj": c, "lazy": True, "library": o[:3000]})
+                break
+        if len(lo) < len(zc):
+            rep.violation("C01: the library crashed building a dataset with default zero counts: %s" % ctx.sanitizer_summary(), {"kind": "codec", "case": zc[len(lo)][1], "lazy": True})
     if not proved and not rep.violations:
         rep.violation("C01: proof obligations no longer check and the correspondence run found no failing input", getattr(rep, "proof_broken", {}), no_input=True)
     rep.cov["traces_validated_against_impl"] = len(cases)
